@@ -1,3 +1,4 @@
+import copy
 from typing import (
     Any,
     Optional,
@@ -37,4 +38,5 @@ class SetCustomAttributeTransformation(PreprocessingTransformation):
 
     def apply(self, rule: SigmaRule | SigmaCorrelationRule) -> None:
         super().apply(rule)
-        rule.custom_attributes[self.attribute] = self.value
+        # Same for mutable attribute values (lists, dicts): every rule gets its own copy.
+        rule.custom_attributes[self.attribute] = copy.deepcopy(self.value)
